@@ -4,6 +4,7 @@ P: ratio_sub_one (nested helper of DisaggregatedResult.ratio): r -> min(r, 1/r) 
    r < 0 is taken from the property text ('the smallest of min(r, 1/r)') and is refuted by z3 with r = -1/2, replayed natively: this is the
    known finding C02:ratio:negative-values.  Aggregate lemmas (max-min, 2x, sandwich) in vf/deductive/C02_lemmas.py when present.
 """
+from ..contracts.aggregates import ApplyGrouping, Difference, Ratio
 from ..contracts.small import RatioSubOne
 from ..pyvc import verify
 
@@ -11,7 +12,26 @@ from ..pyvc import verify
 def run_deductive(rep):
     rep.assume("A1", "A3", "A4")
     rep.trust("z3 (nonlinear real arithmetic)", "pyvc symbolic executor")
-    verify.verify_many(rep, [(RatioSubOne(), [("ge_instead_of_gt", verify.flip_strictness(0))])])
+    items = [(RatioSubOne(), [("ge_instead_of_gt", verify.flip_strictness(0))])]
+    for f in ("min", "max", "median"):
+        for e in ("raise", "coerce", "ignore"):
+            items.append((ApplyGrouping(f, e), []))
+    for m in ("between_groups", "to_overall", "sideways"):
+        for e in ("raise", "coerce"):
+            dc, rc = [], []
+            if m == "between_groups" and e == "coerce":
+                dc = [("absolute_value_dropped", verify.replace_expr("(mf - subtrahend).abs().max()", "(mf - subtrahend).min()"))]
+                rc = [("max_over_min", verify.replace_expr("self.apply_grouping('min', control_feature_names, errors=errors) / self.apply_grouping('max', control_feature_names, errors=errors)",
+                                                           "self.apply_grouping('max', control_feature_names, errors=errors) / self.apply_grouping('min', control_feature_names, errors=errors)"))]
+            if m == "to_overall" and e == "coerce":
+                dc = [("distance_to_the_group_minimum_instead_of_overall", verify.replace_expr("subtrahend = self.overall", "subtrahend = self.apply_grouping('min', control_feature_names, errors=errors)") if False else
+                       verify.replace_expr("self.overall", "self.apply_grouping('min', control_feature_names, errors=errors)"))]
+                rc = [("largest_folded_ratio", verify.replace_expr("ratios.min()", "ratios.max()"))]
+            items.append((Difference(m, e), dc))
+            items.append((Ratio(m, e), rc))
+    rep.trust("pandas agg/min/max on non-NaN columns are the extrema; frame.apply / Series.apply / transform are column-wise / element-wise (assumed); one generic metric column, "
+              "no control features, scalar non-NaN cells (the rest: bounded stand-in)")
+    verify.verify_many(rep, items)
     try:
         from . import C02_lemmas
         C02_lemmas.run(rep)
